@@ -299,4 +299,99 @@ def cacheReplicate {α : Type} (startMajor : Bool) (x : Ops.Tens α) (S : Nat) :
 def cacheBatchify {α : Type} (fields : List (Option (Ops.Tens α))) (S : Nat) : List (Option (Ops.Tens α)) :=
   fields.map (Option.map fun x => cacheReplicate Params.augCacheStartMajor x S)
 
+
+/-! ### the evaluator as an OBJECT: history of calls (growth round 2)
+
+`EvalBase.__call__` builds `rewards_list` / `actions_list`.  Whether these are fresh locals of every call or attributes
+of the evaluator object (created in `__init__`, hence carried over to the next call) is extracted
+(`Params.augEvalListsLocal`). -/
+
+structure EvalObj where
+  rewardsList : List (List Int)
+  actionsList : List (List (List Nat))
+
+/-- a freshly constructed evaluator -/
+def EvalObj.fresh : EvalObj := ⟨[], []⟩
+
+/-- one `__call__` on an evaluator in state `st`: new state and returned `(rewards, actions)` -/
+def callObj {I : Type} (listsLocal : Bool) (f : List I → List (Int × List Nat)) (n : Nat) (st : EvalObj) (ds : List I) :
+    EvalObj × (List Int × List (List Nat)) :=
+  let outs := (chunks n ds).map f
+  let rl := (if listsLocal then [] else st.rewardsList) ++ outs.map (·.map (·.1))
+  let al := (if listsLocal then [] else st.actionsList) ++ outs.map (·.map (·.2))
+  (if listsLocal then st else ⟨rl, al⟩, (concatRewards rl, concatActions al))
+
+/-- a history of calls (datasets with their loader batch sizes) on one object; returns the results in order -/
+def callSeq {I : Type} (listsLocal : Bool) (f : List I → List (Int × List Nat)) (st : EvalObj) :
+    List (Nat × List I) → List (List Int × List (List Nat))
+  | [] => []
+  | (n, ds) :: rest =>
+    let r := callObj listsLocal f n st ds
+    r.2 :: callSeq listsLocal f r.1 rest
+
+/-! ### further layer kinds of the bundled policies (growth round 2) -/
+
+section kinds2
+open Lean.Grind (CommRing)
+variable {α : Type} [CommRing α]
+
+/-- entry-wise activation (ReLU, tanh clipping, …) -/
+def mapRow (g : α → α) (row : Row α) : Row α := fun n d => g (row n d)
+
+/-- the feed-forward block `Linear → activation → Linear` -/
+def mlpRow (D H : Nat) (W1 : Nat → Nat → α) (b1 : Nat → α) (g : α → α) (W2 : Nat → Nat → α) (b2 : Nat → α) (row : Row α) : Row α :=
+  linearRow H W2 b2 (mapRow g (linearRow D W1 b1 row))
+
+/-- attention with a key mask that is part of the SAME row's state (`action_mask`): masked keys get weight from the
+normaliser `w` applied to the masked scores (`neg` stands for `-inf`) -/
+def maskedAttnRow (N D : Nat) (w : (Nat → α) → Nat → α) (neg : α) (mask : Nat → Bool) (q kv : Row α) : Row α :=
+  fun n e => sumRange N (fun m => w (fun m' => if mask m' then sumRange D (fun d => q n d * kv m' d) else neg) m * kv m e)
+
+/-- `PointerAttention`: glimpse (masked multi-head attention of the query over the row's own nodes), projection, then
+logits `⟨glimpse, logit_key[m]⟩` for the row's own nodes; `none`-masked logits are `neg` -/
+def pointerRow (N D : Nat) (w : (Nat → α) → Nat → α) (neg : α) (Wout : Nat → Nat → α) (mask : Nat → Bool)
+    (q gk gv lk : Row α) : Nat → α :=
+  let glimpse : Row α := fun n e => sumRange N (fun m =>
+      w (fun m' => if mask m' then sumRange D (fun d => q n d * gk m' d) else neg) m * gv m e)
+  let proj := linearRow D Wout (fun _ => 0) glimpse
+  fun m => if mask m then sumRange D (fun d => proj 0 d * lk m d) else neg
+
+/-- dynamic embedding (SDVRP): a linear map of the row's own remaining demands added to the cached keys / values -/
+def dynEmbRow (W : Nat → α) (demand : Nat → α) (cached : Row α) : Row α := fun n d => cached n d + W d * demand n
+
+/-- what one decoding step of the AM decoder sees of a row: cached encoder output and the row's own state -/
+structure StepIn (α : Type) where
+  emb : Row α
+  cur : Nat
+  mask : Nat → Bool
+  demand : Nat → α
+
+/-- one decoder step of the attention model on one row: context (current node embedding + graph context), dynamic
+keys / values, pointer attention → logits of that row -/
+def amDecoderRow (N D : Nat) (w : (Nat → α) → Nat → α) (neg : α) (Wq Wk Wv Wl Wout : Nat → Nat → α) (Wdyn : Nat → α)
+    (x : StepIn α) : Nat → α :=
+  let ctx : Row α := fun n d => gatherRow x.cur x.emb n d + meanPoolRow N x.emb n d
+  let q := linearRow D Wq (fun _ => 0) ctx
+  let gk := dynEmbRow Wdyn x.demand (linearRow D Wk (fun _ => 0) x.emb)
+  let gv := dynEmbRow Wdyn x.demand (linearRow D Wv (fun _ => 0) x.emb)
+  let lk := dynEmbRow Wdyn x.demand (linearRow D Wl (fun _ => 0) x.emb)
+  pointerRow N D w neg Wout x.mask q gk gv lk
+
+/-- a context that reads one field of the state from the first row of the batch (seed-class "get first item fast") -/
+def decoderReadsRowZero (N D : Nat) (w : (Nat → α) → Nat → α) (neg : α) (Wq Wk Wv Wl Wout : Nat → Nat → α) (Wdyn : Nat → α) :
+    Layer (StepIn α) (Nat → α) :=
+  fun _ x b => amDecoderRow N D w neg Wq Wk Wv Wl Wout Wdyn { x b with demand := (x 0).demand }
+
+end kinds2
+
+/-- batch-dimension reductions that are known and accounted for (the MVMoE light-decoder gate: known finding) -/
+def knownBatchReductions : List String := ["nn/attention.py:PointerAttnMoE._project_out:mean"]
+
+/-- forced-training-behaviour sites that are known and harmless in the swept configurations: dropout inside the two
+hand-written SDPA functions is guarded by `dropout_p > 0.0` (default 0.0); `PointerNetworkPolicy.forward` sets the
+module mode from its `phase` argument (the network has no mode-dependent layer) -/
+def knownForcedTrain : List String :=
+  ["nn/attention.py:scaled_dot_product_attention_simple:dropout", "zoo/matnet/encoder.py:MixedScoresSDPA.forward:dropout",
+   "zoo/ptrnet/policy.py:PointerNetworkPolicy.forward:train()"]
+
 end Rl4co.Eval
